@@ -36,10 +36,11 @@ public:
     auto eps_output =
         ( kind_input==1 || kind_input==-1 ) ?  // non-strict comparison?
           0.0 :
-          kind_output *
-            GetMC().ComparisonEps(   // 1 for integer expressions
+          GetMC().StrictRhs(   // next integer for integer expressions
               GetMC().ComputeBoundsAndType(cc.GetArguments()).
-              get_result_type() );
+              get_result_type(),
+              cc.GetConstraint().rhs(), kind_output )
+          - cc.GetConstraint().rhs();
     ConvertCondIneq<kind_output>(cc, 1, eps_output);
   }
 
@@ -50,10 +51,11 @@ public:
         ( kind_input>0 ) ? -1 : 1;             // even for < or >
     auto eps_output =
         ( kind_input==1 || kind_input==-1 ) ?  // non-strict comparison?
-          kind_output *
-            GetMC().ComparisonEps(   // 1 for integer expressions
+          GetMC().StrictRhs(   // next integer for integer expressions
               GetMC().ComputeBoundsAndType(cc.GetArguments()).
-              get_result_type() ) :
+              get_result_type(),
+              cc.GetConstraint().rhs(), kind_output )
+          - cc.GetConstraint().rhs() :
           0.0;
     ConvertCondIneq<kind_output>(cc, 0, eps_output);
   }
